@@ -111,5 +111,23 @@ pub fn all() -> Vec<PropDef> {
             assumptions: &[REF_ASSUME, "a tampered run is judged by the reference party in the same position on the same delivered bytes, never by 'was it modified'", SAMPLE_ASSUME],
             exhaustive_per_sample: true,
         },
+        PropDef {
+            id: "C19",
+            level: "fault_enumeration",
+            runs: crate::gen_c19::runs_c19,
+            run: crate::gen_c19::run_c19,
+            rule: "key documents (SEC1 compressed/uncompressed, hex, SPKI DER/PEM; private bytes, hex, PKCS#8 DER/PEM, SEC1 DER) written by the library or the reference and read by the library, over key classes incl. coordinates with leading zero bytes; the committed OpenSSL corpus (documents, GM/T 0009 ciphertexts, signatures); GM/T 0009 ASN.1 ciphertext sessions whose ephemeral scalar comes through the RNG seam from a committed rare-event table (C1.x / C1.y with 1-3 leading or trailing zero bytes, top-bit patterns); then per stored document every bit flip (binary) or character substitution (text), 00/FF at every position, every truncation, extensions and semantic substitutions (coordinates = p, 2^256-1, 0, prefixes, boundary d). A case is one op (inputs as stored/delivered) on which a C19 oracle was evaluated",
+            assumptions: &[REF_ASSUME, "documents produced by OpenSSL 3.5.6 at development time (corpus/) are conforming", "round-trip clauses are deterministic functions that the simulation merely samples; its specific contribution is the seam-chosen ephemeral point and the stored-byte faults", SAMPLE_ASSUME],
+            exhaustive_per_sample: true,
+        },
+        PropDef {
+            id: "C20",
+            level: "fault_enumeration",
+            runs: crate::gen_c20::runs_c20,
+            run: crate::gen_c20::run_c20,
+            rule: "every receive-side entry point (SM2 verify; decrypt in 4 configurations; decrypt_asn1; public-key decoders for SEC1 bytes, hex, SPKI DER/PEM incl. FromStr; private-key decoders for bytes, hex, PKCS#8 DER/PEM, SEC1; Sm4Cipher::new, block encrypt/decrypt, CBC/CFB/OFB/CTR decrypt over data, IV and key lengths; SM9 decrypt and verify_sign; mod_n_from_hash; SM2 kdf and compute_za) is fed every length 0..=200 of zero / FF / seeded content and every truncation, extensions to +66 and every single-byte corruption (^01, ^80, :=00, :=FF) of a valid encoding; boundary private keys (0, 1, 2, n-3..n+1, 2^256-2, 2^256-1) that a constructor accepts must let sign and encrypt finish within the RNG draw budget. A case is one call (entry point, input bytes); the oracle is its outcome class in {Ok, Err}",
+            assumptions: &["panics are caught with catch_unwind; RNG-driven loops by the 64-draw budget; other hangs by a 20 s wall-clock watchdog; aborts (stack overflow, allocation failure) by the ./check wrapper's serial re-run with an in-flight journal", "inputs are enumerated per entry point over the stated menus, not over all byte strings"],
+            exhaustive_per_sample: true,
+        },
     ]
 }
